@@ -31,11 +31,11 @@ REF = (3.0, 4)  # mu_ref = 3 GeV (mu^2 = 9, between the charm and bottom walls),
 
 
 class SymCache:
-    """mapping with the interface Couplings.compute uses (getitem raising KeyError, setitem); keys are compared by tuple equality, i.e.
-    element-wise `==`, symbolic comparisons fork."""
+    """mapping with the dict interface (getitem raising KeyError, setitem, get, in, iteration, items/keys/values, len); keys are compared by tuple
+    equality, i.e. element-wise `==`, symbolic comparisons fork."""
 
     def __init__(self):
-        self.items = []
+        self._items = []
 
     @staticmethod
     def _eq(k1, k2):
@@ -48,17 +48,41 @@ class SymCache:
         return True
 
     def __getitem__(self, key):
-        for k, v in self.items:
+        for k, v in self._items:
             if self._eq(k, key):
                 return v
         raise KeyError(key)
 
     def __setitem__(self, key, val):
-        for i, (k, _v) in enumerate(self.items):
+        for i, (k, _v) in enumerate(self._items):
             if self._eq(k, key):
-                self.items[i] = (k, val)
+                self._items[i] = (k, val)
                 return
-        self.items.append((key, val))
+        self._items.append((key, val))
+
+    def __contains__(self, key):
+        return any(self._eq(k, key) for k, _v in self._items)
+
+    def get(self, key, default=None):
+        try:
+            return self[key]
+        except KeyError:
+            return default
+
+    def items(self):
+        return list(self._items)
+
+    def keys(self):
+        return [k for k, _v in self._items]
+
+    def values(self):
+        return [v for _k, v in self._items]
+
+    def __iter__(self):
+        return iter(self.keys())
+
+    def __len__(self):
+        return len(self._items)
 
 
 class Ufun:
@@ -224,7 +248,7 @@ def case_inductive(log, order, method, em_running, nf_q, npre, box=None):
                 v = prove_zero(SR(0) + got[j] - fresh[j], "order %r %s, %d arbitrary valid cache entries, query nf=%r: answer (entry %d) equals the answer of a fresh object" % (tuple(order), method, npre, nf_q, j))
                 D(v, key="Couplings.a:history", replay=rp, sampler=_sampler)
             # validity preserved
-            for key, val in list(sc.cache.items):
+            for key, val in list(sc.cache.items()):
                 want = U("rge", key[0], key[1], key[2], key[3] if (em_running and order[1] > 0) else 0, key[4], key[5])
                 for j in range(2):
                     v = prove_zero(SR(0) + val[j] - want[j], "order %r %s: after the query and the caller's mutation every cache entry still equals the RGE solution of its key (entry %d)" % (tuple(order), method, j))
